@@ -143,9 +143,9 @@ claim("C09",
       "or without requeue and with a parked notification, put of a fresh or an in-flight key). Underneath, the containers: SliceSet never holds an item twice, "
       "Add/Remove are exact; PriorityQueue never holds a key twice, Push replaces or keeps the entry of a key, reports 'added' iff the key was new, every key "
       "afterwards was there before or is the pushed one, Pop removes exactly the head; Peek/Len are panic-free; an Item marks itself released on its first "
-      "Requeue/Release; a notification is parked only for a key that is in flight (loop invariant [parked-only-while-in-flight]: a release always flushes the parked entry of its key); "
+      "Requeue/Release; a notification is parked only for a key that is in flight (loop invariant [parked-only-while-in-flight]: a release always flushes the parked entry of its key) and a Put for an in-flight key leaves the value of that Put parked ([parked-value-is-the-most-recent]); "
       "one pass of the qruntime worker has forgotten the item's backoff state whenever the reconcile did not fail, with or without a requeue interval.",
-      COMMON + "Not decided: coalescing to the most recent *value*, that a parked notification is re-delivered after release (a liveness flavour: the code path "
+      COMMON + "Not decided: coalescing to the most recent *value* for keys that are not in flight (the value then lives in the priority queue, whose contracts speak about keys), that a parked notification is re-delivered after release (a liveness flavour: the code path "
       "is under the invariant, the 'eventually delivered' is not), the reported length (atomic counter, not modelled), ordering by release time inside "
       "PriorityQueue (results of slices.IndexFunc/BinarySearchFunc for the closures used are assumptions at the call sites), timers and the growth of the backoff (time not "
       "modelled; ResettableTimer trusted frames; the exponential back-off library assumed).",
